@@ -82,6 +82,7 @@ Own(r) == {Images[r][i] : i \in 1..Len(Images[r])}
 AllLayers == UNION {Own(r) : r \in Refs}
 T == AllLayers \cup {"x"}
 Targets(r) == IF AllTargets THEN T ELSE Own(r) \cup {"x"}
+IsOwn(r, t) == t \in Own(r)
 
 \* example manifests (substituted for Images in the configs)
 Img1x1    == [r1 |-> <<"a">>]
@@ -131,7 +132,10 @@ Lookup(r, t, kind, fail, cancel) ==
         direct  == viaNode \/ kind = "info" \/ layer[r][t]      \* info: getLayerInfo answers for any digest
         S0 == [layer |-> layer, memo |-> memo, out |-> out, rc |-> rc]
         S1 == IF direct THEN S0 ELSE ResolveAll(S0, r, Images[r], fail, cancel)   \* getLayer, slow path
-        pending == \E x \in Own(r) : memo[r][x] = "none" /\ ~rc[r][x]  \* some resolution will reach the registry
+        \* some resolution will reach the registry, and the call waits for it: getLayer returns as soon as the wanted layer
+        \* shows up, which it does without the registry when only the resolver's own cache is asked for it
+        pending == /\ \E x \in Own(r) : memo[r][x] = "none" /\ ~rc[r][x]
+                   /\ ~(IsOwn(r, t) /\ memo[r][t] = "none" /\ rc[r][t])
         ok == viaNode \/ kind = "info" \/ S1.layer[r][t]        \* the wanted layer showed up (Verify then holds)
     IN  /\ kind \in Kinds
         /\ fail \subseteq Own(r)
@@ -192,7 +196,6 @@ Spec == Init /\ [][Next]_vars
 (* (layer, cnt, memo, out) and about last, so that the monitor can evaluate  *)
 (* the same formulas on states recorded from the implementation.             *)
 
-IsOwn(r, t) == t \in Own(r)
 Tracked(c, r) == {t \in T : c[r][t] # NoCnt}
 Uses(c, r, t) == IF c[r][t] = NoCnt \/ c[r][t] < 0 THEN 0 ELSE c[r][t]
 RECURSIVE SumUses(_, _, _)
